@@ -298,6 +298,17 @@ func init() {
 		}
 		return in.okBytes(mkMh(code, buf.Ghost)), true
 	})
+	reg(mhPkg+".MHFromBytes", func(in *Interp, fn *ssa.Function, args []value) (value, bool) {
+		buf := args[0].(*Slice)
+		if buf.Ghost == nil {
+			return nil, false
+		}
+		g := buf.Ghost
+		if g.Kind != sGhost || g.G.Ctor != "mh" {
+			return Tuple{BVi(64, 0), &Slice{Nil: true}, in.mkErrorf("multihash: not a well-formed multihash (idealised)")}, true
+		}
+		return Tuple{in.strLen(g), buf, Iface{}}, true // a well-formed multihash is read completely
+	})
 	reg(mhPkg+".Decode", func(in *Interp, fn *ssa.Function, args []value) (value, bool) {
 		buf := args[0].(*Slice)
 		if buf.Ghost == nil {
